@@ -18,10 +18,20 @@
   returned `Ok(ThreadAbort)`, all other variables are unchanged; where the model's message is `panic`
   (`expect` on an unparsable / out-of-range sysfs value) the thread panics.
   `default_eq` (`Poller.init`), `grace_eq` (`withinGrace`, strict `<` 5 s).
-  NOT proved here (time): the failed-send and failed-clock-read iterations, the whole loop (`loop_eq`).
+  `iteration_send_fails`: the same iteration with `send` returning `Err`: the thread panics.
+  `iteration_clock_fails`: the clock read returns `Err`: nothing is queried or sent, the thread waits.
+  `loop_eq`: the WHOLE function `run_clock_error_bound_poller`, for all finite histories `xs ++ [last]` of
+  iterations (`IterIn` = the model's `PollIter` + the rest of the environment) in which `recv_timeout` returns
+  `Ok(ThreadAbort)` exactly in the last one (unexpected messages, timeouts and errors keep the loop running),
+  all input streams that provide the inputs these iterations consume (`pollRunInputs`), every fuel
+  `≥ xs.length + 75`: the log is the concatenation of the `pollTrace`s threaded through `PollIter.step`
+  (`pollRun`), it returns `()`; a `panic` message of the model anywhere is a panic.  `loop_send_fails`: a
+  history whose last iteration's send fails panics.  `run_eq`: the thread's entry point `run` =
+  `default` (one `Instant` read, `Poller.init`), a sleep of 1000 ms, and that loop.
 -/
 import ClockBound.Proofs.RsPollerAll
 import ClockBound.Proofs.RsPollerDefault
+import ClockBound.Proofs.RsPollerLoop
 namespace ClockBound.CodeTiePoller
 open ClockBound ClockBound.Rs ClockBound.Generated ClockBound.Rs.DictPoller
 
@@ -69,6 +79,86 @@ theorem grace_eq (s : PollerState) (tGrace nowNs : Int) (inp : Nat → Value) (h
 /-- the boundary is strict: exactly 5 s after the last good reply the poller is NOT within grace -/
 example : (PollerState.mk 1000).withinGrace (1000 + 5000000000) = false ∧
     (PollerState.mk 1000).withinGrace (1000 + 4999999999) = true := by decide
+
+/-- a failed send (`Err(_)`: the ShmWriter's end of the channel is gone) panics ("Broken channel to ShmWriter"),
+    whatever the iteration was -/
+theorem iteration_send_fails (e : IterEnv) (s : PollerState) (coarse : TimeSpec) (reply : ReplyKind) (tReply tGrace : Int)
+    (refid : Option Nat) (file : PhcFile) (x : Value) (nowNs : Int) (inp : Nat → Value) (log : List Value) (pos : Nat)
+    (c : Expr) (body : List Stmt)
+    (hfw : findWhile Code.fn_chrony_poller__run_clock_error_bound_poller.body = some (c, body))
+    (hother : e.other ≠ "ReplyBody::Tracking") (hsend : e.sendRes = .enumv "Err" [x])
+    (hin : inputsAt inp pos ((pollTrace s coarse reply tReply tGrace (phcOf refid file)).map (pollEvInput e)))
+    (N : Nat) (hN : 60 ≤ N) (next : St → Res) :
+    ((evalBlock N (ctxP nowNs inp) frP body (pollerLoopSt e true s refid log pos)).popTo 5).loopNext next = .panic :=
+  PollerProof.send_fails e s coarse reply tReply tGrace refid file x nowNs inp log pos c body hfw hother hsend hin N hN next
+
+/-- a failed read of the monotonic clock: logged, chronyd is not asked, NOTHING is sent, the poller state is
+    unchanged, the thread waits on its mailbox as in every iteration -/
+theorem iteration_clock_fails (e : IterEnv) (s : PollerState) (refid : Option Nat) (x : Value) (nowNs : Int)
+    (inp : Nat → Value) (log : List Value) (pos : Nat) (c : Expr) (body : List Stmt)
+    (hfw : findWhile Code.fn_chrony_poller__run_clock_error_bound_poller.body = some (c, body))
+    (hin : inputsAt inp pos [.enumv "Err" [x], e.recvRes]) (N : Nat) (hN : 60 ≤ N) (next : St → Res) :
+    ((evalBlock N (ctxP nowNs inp) frP body (pollerLoopSt e true s refid log pos)).popTo 5).loopNext next
+    = next (pollerLoopSt e (!e.isAbort) s refid
+        (log ++ [evClockRead (clockId 6) (.enumv "Err" [x]), evWait (.duration e.sleepNs)]) (pos + 2)) :=
+  PollerProof.clock_fails e s refid x nowNs inp log pos c body hfw hin N hN next
+
+/-- the whole loop: see the header.  `e0` carries the sysfs path and the sleep time of the run -/
+theorem loop_eq (nowNs : Int) (inp : Nat → Value) (refid : Option Nat) (e0 : IterEnv) (last : IterIn)
+    (hlast : last.ok e0) (habort : last.env.isAbort = true) (xs : List IterIn)
+    (hxs : ∀ x ∈ xs, x.ok e0 ∧ x.env.isAbort = false) (s : PollerState)
+    (hin : inputsAt inp 0 (pollRunInputs refid s (xs ++ [last]))) (F : Nat) (hF : xs.length + 75 ≤ F) :
+    runFuel F (ctxP nowNs inp) "chrony_poller::run_clock_error_bound_poller" .unit
+      [contextValue "ChannelId::ClockErrorBoundPoller", pollerValue s, optPhcValue e0.path refid, .duration e0.sleepNs]
+    = match pollRun refid s (xs ++ [last]) with
+      | none => .panic
+      | some (_, l) => .ok .unit .unit l :=
+  PollerProof.poller_run nowNs inp refid e0 last hlast habort xs hxs s hin F hF
+
+/-- a history that ends with a failed send (instead of a ThreadAbort) panics -/
+theorem loop_send_fails (nowNs : Int) (inp : Nat → Value) (refid : Option Nat) (e0 : IterEnv) (bad : IterIn)
+    (hb1 : bad.env.path = e0.path) (hb2 : bad.env.sleepNs = e0.sleepNs)
+    (hb3 : bad.env.other ≠ "ReplyBody::Tracking") (v : Value) (hb4 : bad.env.sendRes = .enumv "Err" [v])
+    (xs : List IterIn) (hxs : ∀ x ∈ xs, x.ok e0 ∧ x.env.isAbort = false) (s : PollerState)
+    (hin : inputsAt inp 0 (pollRunInputs refid s (xs ++ [bad]))) (F : Nat) (hF : xs.length + 75 ≤ F) :
+    runFuel F (ctxP nowNs inp) "chrony_poller::run_clock_error_bound_poller" .unit
+      [contextValue "ChannelId::ClockErrorBoundPoller", pollerValue s, optPhcValue e0.path refid, .duration e0.sleepNs]
+    = .panic :=
+  PollerProof.poller_run_fail nowNs inp refid e0 bad hb1 hb2 hb3 v hb4 xs hxs s hin F hF
+
+/-- `pollRun` panics exactly when the model's `Poller.runFrom` lists a `panic` message (both thread
+    `PollIter.step` through the iterations) -/
+theorem pollRun_panics_iff (refid : Option Nat) (s : PollerState) (xs : List IterIn) :
+    pollRun refid s xs = none ↔ PollMsg.panic ∈ Poller.runFrom refid s (xs.map IterIn.it) :=
+  pollRun_none_iff_runFrom_panics refid s xs
+
+/-- the thread's entry point `chrony_poller::run(ctx, phc_info)`: `ClockErrorBoundPoller::default()` reads the
+    `Instant` `tStart` (input 0; in the range where `checked_sub` succeeds), the sleep time is
+    `Duration::from_millis(1000)`, then the loop from `Poller.init tStart` -/
+theorem run_eq (nowNs : Int) (inp : Nat → Value) (refid : Option Nat) (e0 : IterEnv)
+    (hsleep : e0.sleepNs = 1000000000) (last : IterIn)
+    (hlast : last.ok e0) (habort : last.env.isAbort = true) (xs : List IterIn)
+    (hxs : ∀ x ∈ xs, x.ok e0 ∧ x.env.isAbort = false) (tStart : Int) (ht : instantLo ≤ tStart - GRACE_NS)
+    (h0 : inp 0 = instant tStart)
+    (hin : inputsAt inp 1 (pollRunInputs refid (Poller.init tStart) (xs ++ [last]))) (F : Nat)
+    (hF : xs.length + 85 ≤ F) :
+    runFuel F (ctxP nowNs inp) "chrony_poller::run" .unit
+      [contextValue "ChannelId::ClockErrorBoundPoller", optPhcValue e0.path refid]
+    = match pollRun refid (Poller.init tStart) (xs ++ [last]) with
+      | none => .panic
+      | some (_, l) => .ok .unit .unit (evInstantNow (instant tStart) :: l) :=
+  PollerProof.entry_run nowNs inp refid e0 hsleep last hlast habort xs hxs tStart ht h0 hin F hF
+
+/-- non-vacuity of `loop_eq`: a two-iteration history (silence with an unexpected message in the mailbox, then a
+    Tracking reply and `ThreadAbort`) satisfies the side conditions, does not panic and consumes 5 + 5 inputs -/
+example :
+    let e1 : IterEnv := ⟨"/sys/x", 1000000000, "ReplyBody::Null", [], true, okUnit, true, "Message::ChronyNotResponding", []⟩
+    let e2 : IterEnv := ⟨"/sys/x", 1000000000, "ReplyBody::Null", [], true, okUnit, true, "Message::ThreadAbort", []⟩
+    let xs : List IterIn := [⟨⟨⟨5, 6⟩, .none, 0, 7000000000, .unreadable⟩, e1⟩]
+    let last : IterIn := ⟨⟨⟨6, 6⟩, .tracking ⟨0, 1, 2, 3, 4, 5, 7⟩, 8000000000, 0, .unreadable⟩, e2⟩
+    (pollRun none ⟨0⟩ (xs ++ [last])).isSome = true ∧ (pollRunInputs none ⟨0⟩ (xs ++ [last])).length = 10 ∧
+    e1.isAbort = false ∧ e2.isAbort = true := by
+  decide
 
 /-- the loop is there: `findWhile` finds it, its condition is the variable `keep_running` -/
 theorem loop_found : ∃ body, findWhile Code.fn_chrony_poller__run_clock_error_bound_poller.body
